@@ -179,6 +179,7 @@ def ex_case(ctx, fc, source="memory", seed=0):
     import csep.core.catalog_evaluations as ce
     tmp = tempfile.mkdtemp(prefix="c10-", dir=os.environ.get("VERIF_TMP", "/var/tmp"))
     rc = {"exec": "case", "args": {"fc": fc, "source": source, "seed": seed}}
+    ctx.current_case = rc
     try:
         _run(ctx, fc, source, seed, tmp, rc, ce)
     finally:
